@@ -437,7 +437,7 @@ pub fn run(opts: &Opts) -> i32 {
     let scs = scenarios(opts.tier);
     let (mut schedules, mut steps, mut nontrivial, mut outcomes) = (0u64, 0u64, 0u64, 0u64);
     for sc in &scs {
-        let cfg = ExploreCfg { bound: usize::MAX, max_schedules: if opts.tier == Tier::Quick { 3000 } else { 100_000 }, deadline: Some(deadline) };
+        let cfg = ExploreCfg { bound: usize::MAX, max_schedules: if opts.tier == Tier::Quick { 3000 } else { 100_000 }, deadline: Some(deadline), seen: None };
         let (st, fails) = explore(sc, &cfg);
         schedules += st.schedules;
         steps += st.steps;
